@@ -42,7 +42,9 @@ def judge(events, zones, workdir, tag="t", module="Trace", locales=None):
         shutil.rmtree(meta, ignore_errors=True)
         # a JVM that could not start or was killed under memory pressure says nothing about the spec: retry;
         # an evaluation error of the spec (overflow, missing field, ...) is reported by TLC as "Error:"
-        if rc == 0 or "Error:" in out:
+        # (TLC's exit codes 150 and above are its SYSTEM errors - out of memory, thread or file trouble - which a
+        # loaded machine produces transiently: those are retried too)
+        if rc == 0 or ("Error:" in out and rc < 150):
             break
         time.sleep(2 + 3 * attempt)
     res = {}
